@@ -18,8 +18,19 @@ class Regime:
 
     def __init__(self, kind):
         self.kind = kind
+        # ids of entities that were joined as raw arrays WITHOUT a name argument: the library documents a None placeholder
+        self.unnamed = {a: set() for a in AXES}
 
     def labels(self, axis, ids):
+        d = self._labels(axis, ids)
+        p = PRIMARY[axis]
+        if self.unnamed[axis] and d.get(p) is not None:
+            for j, i in enumerate(numpy.asarray(ids, dtype=int).tolist()):
+                if i in self.unnamed[axis]:
+                    d[p][j] = None
+        return d
+
+    def _labels(self, axis, ids):
         ids = numpy.asarray(ids, dtype=int)
         k = (lambda i: i % 3) if self.kind == "dup" else (lambda i: i)
         if axis == "taxa":
